@@ -52,6 +52,8 @@ func runC01(r *Run) {
 		ok := fn == "tmi.kState.ShiftVotingToCommitting" || fn == "tmi.Kernel.loadInitialCommittingView" || fn == "tmi.NewKernel"
 		r.Check(ok, "C01.1", "assign(kState.Committing)@"+fn, w.InstrPos(fw.Instr), "whole-view assignment of the committing view: "+pathString(fw.Path))
 	}
+	r.Rule("C01.11", "the certificate recorded with a committed header stays the one it was committed on: the saved commit proof is a private copy of the voting view's previous-commit proof")
+	storedCommitProofIsPrivate(r, "C01.11")
 	r.Expect("C01.1", 4, "shift caller, committing header writers, committing view assignments")
 
 	// ---------- C01.2
@@ -126,6 +128,10 @@ func runC01(r *Run) {
 		a := w.A(sv.Fn)
 		arg := a.sh.Of(CallArg(sv.Instr, 2))
 		_, ok := Match("lit:tmconsensus.CommittedHeader{Header:$s.CommittingHeader,Proof:$s.Voting.RoundView.PrevCommitProof}", arg)
+		if !ok {
+			// a private copy of the same proof (required by C10.8) carries the same content
+			_, ok = Match("lit:tmconsensus.CommittedHeader{Header:$s.CommittingHeader,Proof:@tmconsensus.CommitProof.Clone($s.Voting.RoundView.PrevCommitProof)}", arg)
+		}
 		r.Check(ok, "C01.3", FuncName(sv.Fn)+"#save(argument)", w.InstrPos(sv.Instr), "saved value must be {kState.CommittingHeader, voting PrevCommitProof}: "+truncate(arg.String(), 200))
 		// the error is propagated
 		rets := returnShapes(a, 0)
